@@ -149,6 +149,16 @@ func NewWorld(spec WorldSpec) (*World, error) {
 	return w, nil
 }
 
+// Fork returns a new World on a clone of this world's store (same cluster objects, no clients, no
+// recorded operations).  Creating the cluster once and forking it per run avoids repeating the
+// validation-heavy set-up.
+func (w *World) Fork() *World {
+	n := &World{Spec: w.Spec, Store: w.Store.Clone(), Universe: w.Universe}
+	n.AdminBC = n.Store.NewAdminClient("admin")
+	n.Admin = clientv3.NewFromBackend(apiCfg, n.AdminBC)
+	return n
+}
+
 // AddClient adds a logical client running on host.
 func (w *World) AddClient(host string) *LClient {
 	bc := w.Store.NewClient(fmt.Sprintf("c%d@%s", len(w.Clients), host))
@@ -198,8 +208,12 @@ func BlockCIDRsOf(p PoolSpec) []string {
 	return out
 }
 
-// IsV6 reports whether the textual address is IPv6.
+// IsV6 reports whether the textual address (or CIDR) is IPv6.
 func IsV6(a string) bool {
-	ip := net.ParseIP(a)
-	return ip != nil && ip.To4() == nil
+	for i := 0; i < len(a); i++ {
+		if a[i] == ':' {
+			return true
+		}
+	}
+	return false
 }
